@@ -5,7 +5,7 @@
 From Coq Require Import List ZArith NArith Bool Sorted Permutation.
 Import ListNotations.
 From MirV Require Import C19.Varr C19.VarrProofs C19.Bitmap C19.BitmapProofs C19.Dlist C19.DlistProofs
-  C19.Htab C19.HtabProofs C19.Lcg.
+  C19.Htab C19.HtabProofs C19.Lcg C19.HtabGhost.
 
 (* ------------------------------------------------------------------ VARR *)
 (* VARR: for every script from every well-formed array, each step keeps els_num <= size, each
@@ -224,3 +224,29 @@ Proof.
            (fun x => inst_hash_range table x Hall)))).
 Qed.
 Print Assumptions htab_instance_hyps.
+
+(* ---------------------------------------------------------------------------------------------
+   Round 2 (audit). *)
+
+(* free_func == NULL (HTAB_CREATE): every call of the free function in mir-htab.h is guarded by
+   "if (htab->free_func != NULL)" and nothing else depends on it.  In the model the calls are the
+   ghost log [flog]; it is never read: two tables that differ only in their log give, for every
+   operation sequence, the same outputs (found, *res, els_num, foreach) and the same final table
+   up to the log -- or both get stuck.  So the table without a free function is the model with the log
+   erased, and htab_refines_map / htab_do_refines_map hold for it unchanged. *)
+Theorem htab_free_func_ghost : forall (A : Type) (hashf : A -> N) (eqf : A -> A -> bool) ops h1 h2,
+  same A h1 h2 ->
+  match hrun A hashf eqf h1 ops, hrun A hashf eqf h2 ops with
+  | Some (h1', outs1), Some (h2', outs2) => same A h1' h2' /\ outs1 = outs2
+  | None, None => True
+  | _, _ => False
+  end.
+Proof. exact hrun_ghost. Qed.
+Print Assumptions htab_free_func_ghost.
+
+(* htab_size_t / htab_hash_t are 32-bit in C; the model computes the next probe index without
+   wrap-around.  With mask = size - 1 = 2^k - 1 (k <= 32) both give the same index for ALL operands. *)
+Theorem htab_probe_index_wrap_irrelevant : forall ind peterb k : N, (k <= 32)%N ->
+  N.land ((5 * ind + peterb + 1) mod 2 ^ 32) (2 ^ k - 1) = N.land (5 * ind + peterb + 1) (2 ^ k - 1).
+Proof. exact probe_index_wrap_irrelevant. Qed.
+Print Assumptions htab_probe_index_wrap_irrelevant.
